@@ -97,12 +97,12 @@ structure GenesisOK (gs : List Group) : Prop where
   idok : ∀ g ∈ gs, IdOK g.id
   bound : gs.length < lenBound
 
-theorem rep_save_first (m : List Bytes) (dummy g : Group) (hid : IdOK g.id) (hpre : g.pre = []) :
-    Rep [stamped 0 g] (save { disk := [], count := 0, last := dummy, mirror := m } g) := by
-  have hdisk : (save { disk := [], count := 0, last := dummy, mirror := m } g).disk =
-      applyWrites [] (saveWrites 0 g) := rfl
+theorem rep_save_first' (d : Store) (m : List Bytes) (dummy g : Group) (hid : IdOK g.id) (hpre : g.pre = [])
+    (hd : ∀ k, k ≠ g.id → sget d k = none) :
+    Rep [stamped 0 g] (save { disk := d, count := 0, last := dummy, mirror := m } g) := by
+  have hdisk : (save { disk := d, count := 0, last := dummy, mirror := m } g).disk =
+      applyWrites d (saveWrites 0 g) := rfl
   have hsid : (stamped 0 g).id = g.id := rfl
-  have hnil : ∀ k, sget ([] : Store) k = none := fun _ => rfl
   constructor
   · simp
   · simp [save, u64]
@@ -127,7 +127,7 @@ theorem rep_save_first (m : List Bytes) (dummy g : Group) (hid : IdOK g.id) (hpr
       have := hkey_inj h2 (by unfold u64; omega) e; omega
     have e3 : hkey i ≠ curKey := fun e => h3 (hkey_eq_curKey h2 e)
     have e4 : hkey i ≠ g.id := fun e => hid.ne_hkey i e.symm
-    simp [hkey_ne_cntKey, e2, e3, e4, hnil]
+    simp [hkey_ne_cntKey, e2, e3, e4, hd _ e4]
   · simp [Linked, stamped, hpre]
   · simp
   · simp [save]
@@ -138,7 +138,11 @@ theorem rep_save_first (m : List Bytes) (dummy g : Group) (hid : IdOK g.id) (hpr
     have h2 : ([] : Bytes) ≠ hkey 0 := fun e => hkey_ne_nil _ e.symm
     have h3 : ([] : Bytes) ≠ curKey := by decide
     have h4 : ([] : Bytes) ≠ g.id := fun e => hid.1 e.symm
-    simp [h1, h2, h3, h4, hnil]
+    simp [h1, h2, h3, h4, hd _ h4]
+
+theorem rep_save_first (m : List Bytes) (dummy g : Group) (hid : IdOK g.id) (hpre : g.pre = []) :
+    Rep [stamped 0 g] (save { disk := [], count := 0, last := dummy, mirror := m } g) :=
+  rep_save_first' [] m dummy g hid hpre (fun _ _ => rfl)
 
 theorem rep_foldl_save : ∀ (gs : List Group) (l : List Group) (c : Chain), Rep l c →
     Linked c.last.id gs → (∀ g ∈ gs, IdOK g.id) → (l.map (·.id) ++ gs.map (·.id)).Nodup →
